@@ -28,7 +28,24 @@ import mygrad._utils.lock_management as _mem
 import mygrad.tensor_base as _tb
 
 from ..core import CorrBreak, Ctx, Outcome, Violation, pmap, stable_hash
-from ..leanbuild import run_driver
+from ..core import LEAN
+from ..leanbuild import run_driver as _shared_driver
+
+
+def run_driver(lines):
+    """the shared driver (`lock` tag of MG/Driver.lean); if it cannot start (another property's handler is being
+    rebuilt) the same handler is run through the stand-alone entry point MG/IO/LockMain.lean"""
+    try:
+        return _shared_driver(lines)
+    except RuntimeError:
+        import subprocess
+
+        r = subprocess.run(["lake", "env", "lean", "--run", "MG/IO/LockMain.lean"], cwd=LEAN,
+                           input="\n".join(lines) + "\n", capture_output=True, text=True, timeout=1200)
+        out = r.stdout.splitlines()
+        if r.returncode != 0 or len(out) != len(lines):
+            raise RuntimeError("Lean lock driver failed: " + (r.stderr or r.stdout)[-1500:])
+        return out
 
 ID = "C08"
 LEVEL = "proof"
@@ -224,6 +241,7 @@ class Spy:
         self.next_grp = 0
         self.problems = []  # unmodelled call patterns
         self.dying = []
+        self.releasing = None  # arrays passed to _release_lock_on_arr_writeability by the running finalizer
         self.installed = False
 
     # ---- registry
@@ -362,7 +380,8 @@ class Spy:
         k = self.holds.index(key)
         self.holds.pop(k)
         self.lines.append(f"lock fin {k}")
-        self.checks.append((len(self.lines) - 1, "ok", None))
+        self.releasing = []
+        self.checks.append((len(self.lines) - 1, "rel", self.releasing))
 
     # ---- installation
     def install(self):
@@ -380,7 +399,17 @@ class Spy:
 
         def release_writeability_lock_on_op(arr_refs):
             spy.on_release_op(arr_refs)
-            return o["relop"](arr_refs)
+            try:
+                return o["relop"](arr_refs)
+            finally:
+                spy.releasing = None
+
+        def _release_lock_on_arr_writeability(arr):
+            if spy.releasing is not None:
+                spy.releasing.append(spy.idx(arr))
+            else:
+                spy.problems.append("_release_lock_on_arr_writeability outside release_writeability_lock_on_op")
+            return o["rel"](arr)
 
         def unique_arrs_and_bases(tensors):
             tensors = spy.on_uniq(tensors)
@@ -405,6 +434,7 @@ class Spy:
 
         _mem.lock_arr_writeability = lock_arr_writeability
         _mem.release_writeability_lock_on_op = release_writeability_lock_on_op
+        _mem._release_lock_on_arr_writeability = _release_lock_on_arr_writeability
         _mem.unique_arrs_and_bases = unique_arrs_and_bases
         _mem.finalize = make_finalize(o["fin_mem"])
         _tb.finalize = make_finalize(o["fin_tb"])
@@ -526,8 +556,9 @@ class Oracle:
             memo[key] = self.cleared.get(t, -1)
             return memo[key]
         rec = self.ops.get(op)
-        if rec is None:
-            rec = {"born": when, "guarded": guard_on}
+        first = rec is None
+        if first:
+            rec = {"born": when, "guarded": guard_on, "arrs": []}
             self.ops[op] = rec
         last_clear = self.cleared.get(t, -1)
         arrs = []
@@ -539,13 +570,23 @@ class Oracle:
         arrs.append((t.data, "output"))
         if isinstance(t.data.base, np.ndarray):
             arrs.append((t.data.base, "output-base"))
+        if first:
+            # the arrays the operation was recorded with (a later in-place update may re-point `op.variables`;
+            # after a partial clear MyGrad can even re-point them to the *mutated* tensor — C09's business)
+            rec["arrs"] = [(weakref.ref(a), role) for a, role in arrs]
         tainted = last_clear >= rec["born"]
         for a, role in arrs:
+            refd.add(id(a))
+        for r, role in rec["arrs"]:
+            a = r()
+            if a is None:
+                continue
             refd.add(id(a))
             if rec["guarded"]:
                 self._learn(a, role)
                 if not tainted:
                     must.setdefault(id(a), (a, role))
+            del a
         memo[key] = last_clear
         return last_clear
 
@@ -869,6 +910,12 @@ WITNESSES = {
         ["arr", "a0", 0], ["arr", "a1", 0], ["view", "a2", "a0", 0, 0], ["un", "t0", "neg", ("a", 0)],
         ["un", "t1", "neg", ("a", 2)], ["del", "t1"], ["del", "a2"], ["view", "a3", "a1", 0, 0],
         ["un", "t2", "neg", ("a", 1)], ["un", "t3", "neg", ("a", 3)], ["del", "t3"], ["del", "t0"], ["del", "t2"]],
+    "R id re-use: an array dies while an op holds it (the documented in-place state leak), a natively read-only "
+    "array born at its address is made writeable": (
+        [["tens", "t0"], ["un", "t1", "vslice", ("t", 0)], ["un", "t2", "vslice", ("t", 1)], ["back", "t1"],
+         ["aug", "t1", "add", ("s", 0)], ["back", "t1"], ["del", "t0"], ["del", "t1"], ["del", "t2"]]
+        + [["arr", f"a{i}", 1] for i in range(64)]
+        + [st for i in range(64) for st in (["un", f"t{10 + i}", "neg", ("a", i)], ["del", f"t{10 + i}"])]),
 }
 
 
@@ -888,6 +935,11 @@ def compare_with_model(res, out_lines):
             want = ",".join(map(str, exp)) or "-"
             if got != want:
                 bad.append({"line": res["lines"][ln], "model": "yields " + got, "implementation": "yields " + want})
+        if kind == "rel":
+            got = o.split("rel=")[1].split()[0]
+            want = ",".join(map(str, exp)) or "-"
+            if got != want:
+                bad.append({"line": res["lines"][ln], "model": "releases " + got, "implementation": "releases " + want})
     for ln, flags, n in res["marks"]:
         if out_lines[ln] != flags:
             bad.append({"line": f"flags after statement {n}", "model": out_lines[ln], "implementation": flags})
@@ -1020,7 +1072,7 @@ FEATURE_KINDS = ("set", "aug", "out:t", "out:a", "goff", "setro", "fail:shape", 
 
 def signature(cls, subject, hist, idreuse):
     if idreuse:  # the whole family "a lingering table entry meets a re-used address" is one signature per symptom
-        return f"C08|{cls}|{subject.replace(',stale', '')}|id-reuse"
+        return f"C08|{cls}|id-reuse"
     ks = set(kinds_of(hist))
     feats = []
     if ks & {"set", "aug", "out:t"}:
@@ -1038,17 +1090,19 @@ def signature(cls, subject, hist, idreuse):
 
 def minimise_violation(hist, f):
     cls, subject = f["class"], f["subject"]
-    # does the failure need an address to be re-used?  (re-run with every array that entered an op pinned)
-    _NOREUSE[0] = True
-    needs_reuse = not _has(hist, cls, subject)
-    _NOREUSE[0] = not needs_reuse
     try:
+        _NOREUSE[0] = False
         small = shrink(hist, cls, subject)
+        if not _has(small, cls, subject):  # flaky (address re-use): keep the original
+            small = hist
+        # does the failure need an address to be re-used?  (re-run with every array that entered an op pinned)
+        _NOREUSE[0] = True
+        needs_reuse = not _has(small, cls, subject)
+        if not needs_reuse:
+            small = shrink(small, cls, subject)  # canonical form without incidental re-use
+        _NOREUSE[0] = not needs_reuse
         r = fails_of(small, _NOREUSE[0])
-        ff = [x for x in r["fails"] if x["class"] == cls and x["subject"] == subject]
-        if not ff:  # flaky (address re-use): keep the original
-            small, r = hist, fails_of(hist, _NOREUSE[0])
-            ff = [x for x in r["fails"] if x["class"] == cls and x["subject"] == subject] or [f]
+        ff = [x for x in r["fails"] if x["class"] == cls and x["subject"] == subject] or [f]
     finally:
         _NOREUSE[0] = False
     sig = signature(cls, subject, small, needs_reuse)
@@ -1224,14 +1278,22 @@ MANIFEST = {
     "design_ref": "DESIGN.md §5 C08",
     "technique": "Lean 4 invariant proof by induction over all histories of lock events (model M5 over an M2 heap, "
                  "ghost multiset of live holds) + spy-recorded event replay against lock_management + direct flag oracle",
-    "text": "guard_inv, restore_at_quiescence_partial and never_unlocks_native_readonly_partial are proved for every "
-            "history of newArr/opCreated/opExtend/opFinalized/arrayDied events (any length, any order) under the named "
-            "hypotheses H_fresh/H_flags/H_outs/H_force; the _neg theorems prove from concrete witnesses that the full "
-            "statements are false of the code as written (address re-use while a table entry lingers; read-only views "
-            "of writeable owners), and the witnesses are replayed on the implementation on every run. The model is tied "
-            "to lock_management.py by replaying the recorded events and comparing every alive array's flag after every "
-            "statement; the property itself is evaluated directly on the implementation from the live op graph.",
+    "text": "guard_inv_partial (counter = number of live op-holds, held => read-only), restore_at_quiescence_partial "
+            "(no live hold on an array and its base => original flag) and never_unlocks_native_readonly_partial are "
+            "proved for every history of newArr/opCreated/opExtend/opFinalized/arrayDied events (any length, any order, "
+            "arrays dying while held, addresses re-used) under the named hypotheses H_fresh (no address re-use while a "
+            "table entry lingers), H_flags (a view's original flag is its owner's), H_outs, H_force. The full statements "
+            "are FALSE of the code as written: guard_inv_neg, restore_at_quiescence_neg (+ restore_needs_fresh_neg, "
+            "restore_needs_flags_neg) and never_unlocks_native_readonly_neg (+ never_unlocks_needs_flags_neg, "
+            "never_unlocks_needs_fresh_neg) prove that from concrete witnesses, and four user-level witnesses are replayed "
+            "on the implementation on every run (4 open known findings). The model is tied to lock_management.py by "
+            "replaying the recorded events (order of unique_arrs_and_bases yields, of releases, and every alive array's "
+            "flag after every statement are predicted); the property itself is evaluated directly on the implementation "
+            "from the op graph reachable from the tensors the user holds (flag and attempted write).",
     "note": "The model cannot exhibit CPython's refcount/finalizer timing: the order of lock/release/death events is "
-            "recorded by the spy and replayed, not predicted. Trusted: Lean kernel, the spy/translator in c08.py, NumPy's "
-            "flag semantics (view inheritance, refusal to make a view of a read-only base writeable).",
+            "recorded by the spy and replayed, not predicted; hypotheses are evaluated by the driver on every recorded "
+            "event and histories outside them are covered by the direct oracle only. Locks kept alive by cyclic garbage "
+            "(gc disabled) are collected before judging restoration and counted (C07/C09 territory). Trusted: Lean "
+            "kernel, the spy/translator in c08.py, NumPy's flag semantics (view inheritance, refusal to make a view of "
+            "a read-only base writeable).",
 }
